@@ -34,7 +34,10 @@ def wf_entry(rng, name, order):
     if order == 1 and rng.random() < 0.5:
         e["initial_value"] = rng.choice(["1", "0", "e/tau"])
     else:
-        e["initial_values"] = {name + "'" * k: rng.choice(["1", "0", "2.5"]) for k in range(order)}
+        ks = list(range(order))
+        if order >= 2 and rng.random() < 0.5:
+            ks = ks[::-1] if order == 2 or rng.random() < 0.5 else ks[1:] + ks[:1]      # the order of the keys carries no meaning
+        e["initial_values"] = {name + "'" * k: rng.choice(["1", "0", "2.5"]) for k in ks}
     return e
 
 
